@@ -3,6 +3,8 @@ import TcVerif.Driver.Judge
 import TcVerif.Driver.Rep
 import TcVerif.Driver.JudgeRep
 import TcVerif.Driver.Store
+import TcVerif.Driver.TaskFam
+import TcVerif.Driver.JudgeTask
 
 open Tc.Driver
 
@@ -40,6 +42,28 @@ partial def loopJudge (h : IO.FS.Stream) (out : IO.FS.Stream) (c : JCase) : IO U
   let (c', outs) := judgeLine c (line.dropEndWhile (· == '\n')).toString
   for o in outs do out.putStrLn o
   loopJudge h out c'
+
+partial def loopTask (h : IO.FS.Stream) (out : IO.FS.Stream) (st : TState) : IO Unit := do
+  let line ← h.getLine
+  if line.isEmpty then return ()
+  if line.startsWith "#" then
+    out.putStrLn line.trimAscii.toString
+    loopTask h out (if line.startsWith "# case" then {} else st)
+  else
+    out.putStrLn ("> " ++ line.trimAscii.toString)
+    let (st', outs) := taskLine st line
+    for o in outs do
+      out.putStrLn o
+    loopTask h out st'
+
+partial def loopJudgeTask (h : IO.FS.Stream) (out : IO.FS.Stream) (j : TJ) : IO Unit := do
+  let line ← h.getLine
+  if line.isEmpty then
+    for o in tjFlush j do out.putStrLn o
+    return ()
+  let (j', outs) := tjLine j (line.dropEndWhile (· == '\n')).toString
+  for o in outs do out.putStrLn o
+  loopJudgeTask h out j'
 
 partial def loopStore (h : IO.FS.Stream) (out : IO.FS.Stream) (st : SState) : IO Unit := do
   let line ← h.getLine
@@ -105,6 +129,8 @@ def main (args : List String) : IO UInt32 := do
   | ["model", "rep"] => loopRep stdin stdout {}; return 0
   | ["judge", "rep"] => loopJudgeRep stdin stdout {}; return 0
   | ["model", "store"] => loopStore stdin stdout {}; return 0
+  | ["model", "task"] => loopTask stdin stdout {}; return 0
+  | ["judge", "task"] => loopJudgeTask stdin stdout {}; return 0
   | ["judge", "store"] => loopJudgeStore stdin stdout "" #[] []; return 0
   | _ =>
     IO.eprintln "usage: tcmodel model <family> < ops.txt"
